@@ -282,7 +282,7 @@ fn sweep(t: &mut Tape, full: bool) -> Scenario {
             scripted: Vec::new(),
             stall_pm: 0,
             stall_max_ns: 0,
-            addr_in_use_pm: 0, addr_in_use_from_round: 0,
+            addr_in_use_pm: 0, addr_in_use_from_round: 0, addr_in_use_udp: false,
             tick_base_ns: 50,
             tick_jitter_ns: 0,
         },
@@ -341,6 +341,13 @@ fn g_long(t: &mut Tape) -> Scenario {
     };
     if sc.tracer.max_ttl < 30 {
         sc.tracer.max_ttl = 30;
+    }
+    // unprivileged UDP binds a socket per probe: a busy port there ends the trace with an
+    // error - also when whole blocks of ports are busy from some round on
+    if sc.tracer.proto == crate::scenario::Proto::Udp && sc.tracer.unprivileged && t.chance(500) {
+        sc.faults.addr_in_use_udp = true;
+        sc.faults.addr_in_use_pm = [1000u32, 950, 300][t.pick(3)];
+        sc.faults.addr_in_use_from_round = t.draw(6);
     }
     sc.stable = false;
     sc.light = true;
@@ -657,7 +664,7 @@ fn sweep_scenario(t: &mut Tape, wide: bool, tier: &str) -> Scenario {
             ecmp_salt: 7,
         },
         inject: InjectCfg::default(),
-        faults: FaultCfg { sock_pm: 0, sock_benign_pm: 0, scripted: Vec::new(), stall_pm: 0, stall_max_ns: 0, addr_in_use_pm: 0, addr_in_use_from_round: 0, tick_base_ns: 100, tick_jitter_ns: 0 },
+        faults: FaultCfg { sock_pm: 0, sock_benign_pm: 0, scripted: Vec::new(), stall_pm: 0, stall_max_ns: 0, addr_in_use_pm: 0, addr_in_use_from_round: 0, addr_in_use_udp: false, tick_base_ns: 100, tick_jitter_ns: 0 },
         stable: true,
         light: true,
         mutation: Some(Mutation { field, value, trunc }),
@@ -933,7 +940,7 @@ fn fault_enum_base(cfg: u32) -> Scenario {
             ecmp_salt: 7,
         },
         inject: InjectCfg::default(),
-        faults: FaultCfg { sock_pm: 0, sock_benign_pm: 0, scripted: Vec::new(), stall_pm: 0, stall_max_ns: 0, addr_in_use_pm: 0, addr_in_use_from_round: 0, tick_base_ns: 100, tick_jitter_ns: 0 },
+        faults: FaultCfg { sock_pm: 0, sock_benign_pm: 0, scripted: Vec::new(), stall_pm: 0, stall_max_ns: 0, addr_in_use_pm: 0, addr_in_use_from_round: 0, addr_in_use_udp: false, tick_base_ns: 100, tick_jitter_ns: 0 },
         stable: true,
         light: true,
         mutation: None,
